@@ -15,6 +15,7 @@ import (
 	"encoding/json"
 	"fmt"
 	"math"
+	"math/big"
 	"sort"
 	"strings"
 
@@ -55,6 +56,12 @@ type arow struct {
 type msum struct {
 	n, one, sf, drop int
 	bits             uint64
+	wsum             *big.Int // sum of the whale weights of the rows sent with factor 1
+}
+
+func bigOf(f float64) *big.Int {
+	b, _ := new(big.Float).SetFloat64(f).Int(nil)
+	return b
 }
 
 func agentCase(h *verifx.H, ci int, r *verifx.Rng) {
@@ -226,7 +233,7 @@ func agentCase(h *verifx.H, ci int, r *verifx.Rng) {
 		if rw.bypass {
 			metric = rw.ownMetric
 		}
-		h.Op("aitem %d %d %d %d %d 0 %d %d %d %d %d %d %s - %d %d", b2i(rw.bypass), rw.id, rw.size, int64(rw.whale), metric, rw.ns, rw.grp,
+		h.Op("aitem %d %d %d %s %d 0 %d %d %d %d %d %d %s - %d %d", b2i(rw.bypass), rw.id, rw.size, bigOf(rw.whale).String(), metric, rw.ns, rw.grp,
 			rw.wNsTab, rw.wGrpTab, rw.wMetric, b2i(rw.noSample), ilist(rw.fki), b2i(rw.single), rw.id)
 	}
 	h.Op("draws %s", strings.Join(draws, ","))
@@ -244,7 +251,7 @@ func agentCase(h *verifx.H, ci int, r *verifx.Rng) {
 		}
 		s := sums[metric]
 		if s == nil {
-			s = &msum{}
+			s = &msum{wsum: new(big.Int)}
 			sums[metric] = s
 			ids = append(ids, metric)
 		}
@@ -254,6 +261,7 @@ func agentCase(h *verifx.H, ci int, r *verifx.Rng) {
 			s.drop++
 		case rw.counter == rw.count:
 			s.one++
+			s.wsum.Add(s.wsum, bigOf(rw.whale))
 		default:
 			s.sf++
 			s.bits = math.Float64bits(rw.counter / rw.count)
@@ -262,7 +270,7 @@ func agentCase(h *verifx.H, ci int, r *verifx.Rng) {
 	sort.Slice(ids, func(i, j int) bool { return ids[i] < ids[j] })
 	for _, id := range ids {
 		s := sums[id]
-		h.Obs("am %d n=%d one=%d sf=%d bits=%016x drop=%d", id, s.n, s.one, s.sf, s.bits, s.drop)
+		h.Obs("am %d n=%d one=%d sf=%d bits=%016x drop=%d wsum=%s", id, s.n, s.one, s.sf, s.bits, s.drop, s.wsum.String())
 	}
 	h.Stat("agent.cases", 1)
 	nBy, nSampled := 0, 0
